@@ -100,6 +100,9 @@ type Exec struct {
 	digests      map[*ArrObj]*smt.Term
 	signedMsgs   map[*ArrObj]*SignedMsg
 	derBlobs     map[*ArrObj][]derElem
+	fs           map[string]*fsFile
+	fileContent  map[string]string
+	umaskT       *smt.Term
 	digestVals   map[*Array]*smt.Term
 	initDone     map[*ssa.Package]bool
 	merging      bool
